@@ -11,7 +11,8 @@
    Tie: harness/c10.py runs the real compile_jmc under harness/fstrace.py and compares trace, tree and result
    with Build.run, and checks the property itself on the real trees (Run/C10.v). *)
 From Coq Require Import String List Bool.
-From JMCV Require Import Model.FS Model.Build Proofs.FS Proofs.Build Proofs.BuildC10 Proofs.BuildC11 Proofs.BuildGate.
+From JMCV Require Import Model.FS Model.Build Model.BuildPath Proofs.FS Proofs.Build Proofs.BuildC10 Proofs.BuildC11 Proofs.BuildGate
+  Proofs.BuildPath.
 Import ListNotations.
 
 (* Territory.  For every initial tree [t], configuration, header facts, outcome of the front end, injected
@@ -178,3 +179,96 @@ Example C10_build_executes_hardened :
     node_at t' ["."; "data"; "minecraft"; "keep"; "m.txt"]%string = Some (NFile (Raw "kept by hand")).
 Proof. exact g_build_executes_hardened. Qed.
 Print Assumptions C10_build_executes_hardened.
+
+(* ---- Strengthening round 4: path SPELLINGS (Model/BuildPath.v).
+   The paths above are canonical lists of names.  What JMC is given are spellings: the output directory of the configuration
+   (`cwd / "../out"`, a relative path, a path through a symbolic link, `a/lnk/../out`) and the argument of `#static`
+   (`./keep`, `a/../keep`, `../minecraft/loot_table`, `keep/`, an absolute path).  [resolve L acc s] is os.path.realpath
+   (Path.resolve(): "" and "." dropped, ".." = parent of what is resolved so far, a symbolic link of the table [L] continues at
+   the location it denotes); [static_of E c a] is the folder a `#static` argument denotes, as a path of the model;
+   [run_spelled] is the build given the header and the output directory AS WRITTEN.  The harness hands the model the
+   spellings, not the paths the code under test computed from them. *)
+
+(* "" (doubled / trailing "/") and "." may be inserted anywhere in a spelling ... *)
+Theorem C10_spelling_dot_segments : forall L a x b acc,
+  skip x = true -> resolve L acc (a ++ x :: b) = resolve L acc (a ++ b).
+Proof. exact resolve_skip. Qed.
+Print Assumptions C10_spelling_dot_segments.
+
+(* ... and so may `name/..`, unless `name` is a symbolic link there (`..` is then the parent of the link's target) *)
+Theorem C10_spelling_down_up : forall L a x b acc,
+  skip x = false -> dotdot x = false -> link_at (resolve L acc a ++ [x]) L = None ->
+  resolve L acc (a ++ x :: ".."%string :: b) = resolve L acc (a ++ b).
+Proof. exact resolve_down_up. Qed.
+Print Assumptions C10_spelling_down_up.
+
+Theorem C10_spelling_through_link : forall L a x b acc t,
+  skip x = false -> dotdot x = false -> link_at (resolve L acc a ++ [x]) L = Some t ->
+  resolve L acc (a ++ x :: b) = resolve L t b.
+Proof. exact resolve_link. Qed.
+Print Assumptions C10_spelling_through_link.
+
+(* the stored static folder is canonical: resolving it again changes nothing (what the consumers in compiling.py rely on
+   when they compare it with resolved paths) *)
+Theorem C10_resolve_idempotent : forall L s, wf_links L -> resolve L [] (resolve L [] s) = resolve L [] s.
+Proof. exact resolve_idem. Qed.
+Print Assumptions C10_resolve_idempotent.
+
+(* EVERY spelling of a relative `#static` argument that denotes the folder [r] of the output directory - whatever "", ".",
+   `name/..`, `../<namespace>/...` it contains and however the output directory itself is spelled - is the model path "." :: r *)
+Theorem C10_static_any_spelling : forall E c s r,
+  ns_unlinked E c = true ->
+  resolve (e_links E) (out_canon E ++ ["data"; c_ns c]%string) s = out_canon E ++ r ->
+  static_of E c (rel s) = "."%string :: r.
+Proof. exact static_of_inside. Qed.
+Print Assumptions C10_static_any_spelling.
+
+(* two spellings of the output directory that denote the same directory give every relative argument the same folder *)
+Theorem C10_output_spelling_irrelevant : forall L o1 o2 c s,
+  resolve L [] o1 = resolve L [] o2 -> ns_unlinked (mkEnv L o1) c = true ->
+  static_of (mkEnv L o1) c (rel s) = static_of (mkEnv L o2) c (rel s).
+Proof. exact static_of_out_spelling. Qed.
+Print Assumptions C10_output_spelling_irrelevant.
+
+(* The build is a function of the SET of folders the `#static` arguments denote: two headers as written, two spellings of the
+   output directory, any links - same folders, same mutations and same result, on every tree, for every outcome of the front
+   end and every injected failure. *)
+Theorem C10_static_spelling_irrelevant : forall v E E' c rh rh' out fault t,
+  rh_overrides rh' = rh_overrides rh -> rh_copy rh' = rh_copy rh -> rh_nometa rh' = rh_nometa rh ->
+  (forall p, In p (map (static_of E' c) (rh_statics rh')) <-> In p (map (static_of E c) (rh_statics rh))) ->
+  run_spelled v E' c rh' out fault t = run_spelled v E c rh out fault t.
+Proof. exact static_spelling_irrelevant. Qed.
+Print Assumptions C10_static_spelling_irrelevant.
+
+(* #static folders stay byte-identical for every spelling: each argument [a] of the header as written shields the folder it
+   denotes and everything below it, at every crash point, except where the build itself writes (C10_statics_pointwise). *)
+Theorem C10_statics_untouched_spelled : forall v E c rh out fault t ops t' a p,
+  sound v ->
+  crash_trace (plan_spelled v E c rh out fault t) ops -> exec ops t = Some t' ->
+  In a (rh_statics rh) -> is_prefix (static_of E c a) p = true ->
+  (forall o w, gate v c (hdr_of E c rh) out = Success o -> In w (written_paths c (hdr_of E c rh) o) -> is_prefix p w = false) ->
+  node_at t' p = node_at t p.
+Proof. exact statics_untouched_spelled. Qed.
+Print Assumptions C10_statics_untouched_spelled.
+
+(* non-vacuity.  /w/lnk -> /w, /w/a/lnk2 -> /w/proj, /w/outlnk -> /w/out.  8 spellings of the output directory
+   (/w/out, /w/proj/../out, /w/out/, /w/./out/., /w/lnk/out, /w/outlnk, /w/a/lnk2/../out, ...) x 8 spellings of the
+   argument (keep, ./keep, a/../keep, keep/, function/../keep/., ../ns/keep, ../../data/ns/keep, keep/sub/..): all 64 denote
+   ./data/ns/keep *)
+Example C10_sixty_four_spellings : forallb (fun o => forallb (fun k =>
+    path_eqb (static_of (mkEnv p_links o) p_cfg (rel k)) ["."; "data"; "ns"; "keep"]%string) p_keeps) p_outs = true.
+Proof. exact p_all_spellings. Qed.
+Print Assumptions C10_sixty_four_spellings.
+
+(* ... and a rebuild with `#static "function/../keep/."`, output given as /w/a/lnk2/../out, keeps the folder while the old
+   function file goes *)
+Example C10_spelled_rebuild_keeps :
+  let E := mkEnv p_links ["w"; "a"; "lnk2"; ".."; "out"]%string in
+  let rh := mkRHdr [rel ["function"; ".."; "keep"; "."]%string] [] None false in
+  exists t', exec (plan_spelled guarded E p_cfg rh (Success p_out) None p_tree) p_tree = Some t' /\
+    snd (run_spelled guarded E p_cfg rh (Success p_out) None p_tree) = RDone /\
+    node_at t' ["."; "data"; "ns"; "keep"; "a.txt"]%string = Some (NFile (Raw "precious")) /\
+    node_at t' ["."; "data"; "ns"; "function"; "old.mcfunction"]%string = None /\
+    node_at t' ["."; "data"; "ns"; "function"; "g.mcfunction"]%string = Some (NFile (Raw "say g")).
+Proof. exact p_rebuild_keeps. Qed.
+Print Assumptions C10_spelled_rebuild_keeps.
